@@ -31,8 +31,8 @@ EXTENDS SamplerOps, Json, IOUtils, TLCExt
 
 Traces == JsonDeserialize(IOEnv.TRACE_FILE)
 
-VARIABLES tid, l, dim
-vars == <<tid, l, dim>>
+VARIABLES tid, l, dim, orig
+vars == <<tid, l, dim, orig>>
 
 T == Traces[tid]
 X == T.inst
@@ -42,6 +42,9 @@ ColTokens(fluxes) ==
   [k \in 1..Len(c) |-> IF c[k][1] = "z" THEN "z" ELSE c[k][1] \o ToString(c[k][2])]
 
 Asked(code) == code # <<"-">>
+\* SxRefusalExpected with the lattice facts carried in the state
+RefusalExpected ==
+  IF dim = 2 THEN "no" ELSE IF ~SxIntegral(X) THEN "edge" ELSE IF dim = 0 THEN "yes" ELSE IF orig THEN "no" ELSE "yes" 
 \* ---- probes
 FluxProbeBad(r) ==
   {i \in 1..Len(T.probes) : Asked(r.pf[i]) /\ ~SxValidateAgrees(r.pf[i], SxInFluxPolytope(X, T.probes[i].flux))}
@@ -52,17 +55,17 @@ FluxProbeLetters(r) ==
      /\ LetterAgrees(r.pf[i], "l", SxLetterL(X, p))
      /\ LetterAgrees(r.pf[i], "u", SxLetterU(X, p))
      /\ LetterAgrees(r.pf[i], "e", SxLetterE(X, p))
-VarProbeOK(r) ==
-  \A i \in 1..Len(T.probes) : (Asked(r.pv[i]) /\ T.probes[i].vars # <<>>) =>
-     /\ SxCodeWellFormed(r.pv[i])
-     /\ SxValidateAgrees(r.pv[i], SxInVarPolytope(X, T.probes[i].vars))
+VarProbeBad(r) ==
+  {i \in 1..Len(T.probes) : Asked(r.pv[i]) /\ T.probes[i].vars # <<>> /\
+     ~(SxCodeWellFormed(r.pv[i]) /\ SxValidateAgrees(r.pv[i], SxInVarPolytope(X, T.probes[i].vars)))}
+VarProbeOK(r) == VarProbeBad(r) = {}
 
 Clauses(r) ==
   IF r.outcome = "ValueError" THEN
-       (IF SxRefusalExpected(X, dim) = "no" THEN {"refusal_only_when_degenerate"} ELSE {})
+       (IF RefusalExpected = "no" THEN {"refusal_only_when_degenerate"} ELSE {})
   \cup (IF r.outcome2 # r.outcome THEN {"same_seed_same_samples"} ELSE {})
   \cup (IF r.model_pre # r.model_post THEN {"model_unchanged"} ELSE {})
-  ELSE IF r.outcome # "ok" THEN {"unexpected_exception"}
+  ELSE IF r.outcome # "ok" THEN {"unexpected_exception"} \cup (IF r.model_pre # r.model_post THEN {"model_unchanged"} ELSE {})
   ELSE
        (IF Len(r.rows) # SxRowCount(r.cfg.method, r.cfg.n, r.cfg.P) THEN {"row_count"} ELSE {})
   \cup (IF r.cols # ColTokens(r.cfg.fluxes) THEN {"columns"} ELSE {})
@@ -78,27 +81,39 @@ Clauses(r) ==
   \cup (IF r.model_pre # r.model_post THEN {"model_unchanged"} ELSE {})
 
 \* root-cause tags: from the instance, the configuration and the probe geometry only
-Tags(r) ==
+VarBatch(r) == {T.probes[i].vars : i \in {k \in 1..Len(T.probes) : Asked(r.pv[k]) /\ T.probes[k].vars # <<>>}}
+CodeSet(code) == {code[i] : i \in 1..Len(code)}
+CommonTags(r) ==
      {r.cfg.method}
   \cup (IF Len(X.U) > 0 THEN {"has_user_rows"} ELSE {})
+  \cup (IF \E i \in 1..Len(X.U) : IsIneq(X.U[i]) THEN {"has_user_inequality_row"} ELSE {})
   \cup (IF X.hasz THEN {"has_user_variable"} ELSE {})
-  \cup (IF ~SxHomogeneous(X) THEN {"inhomogeneous"} ELSE {})
+  \cup (IF SxHomogeneous(X) THEN {"no_fixed_nonzero_flux"} ELSE {"fixed_nonzero_flux"})
+  \cup (IF SxIntegral(X) THEN {"integral_polytope"} ELSE {})
+  \cup (IF orig THEN {"origin_in_polytope"} ELSE {"origin_not_in_polytope"})
   \cup {IF dim = 0 THEN "dim0" ELSE IF dim = 1 THEN "dim1" ELSE "dim2plus"}
-  \cup (IF r.outcome = "ok" /\ FluxProbeBad(r) # {} /\
+Tags(r, clause) ==
+  CommonTags(r)
+  \cup (IF clause = "validate_agrees_on_flux_probes" /\
            \A i \in FluxProbeBad(r) : SxOnlyUserRowsViolated(X, T.probes[i].flux) /\ r.pf[i] = <<"v">>
         THEN {"validate_says_v_where_only_user_rows_are_violated"} ELSE {})
+  \cup (IF clause = "validate_agrees_on_variable_probes" /\
+           \A i \in 1..Len(T.probes) : (Asked(r.pv[i]) /\ T.probes[i].vars # <<>>) =>
+                CodeSet(r.pv[i]) = SxBatchMinLetters(X, T.probes[i].vars, VarBatch(r))
+        THEN {"codes_are_batch_minimum_of_inequality_rows"} ELSE {})
 
 Init ==
   /\ tid \in 1..Len(Traces)
   /\ l = 0
-  /\ dim = SxDim(SxLattice(X))
+  /\ LET L == SxLattice(X) IN dim = SxDim(L) /\ orig = SxOriginFeasible(X, L)
 
 Next ==
   /\ l < Len(T.runs)
-  /\ LET r == T.runs[l + 1] cl == Clauses(r) IN
-     cl # {} => PrintT(ToJson([verdict |-> "MISMATCH", tid |-> T.tid, l |-> l + 1, action |-> r.cfg.method,
-                               clauses |-> cl, tags |-> Tags(r), obsoutcome |-> r.outcome,
-                               fluxes |-> r.cfg.fluxes, P |-> r.cfg.P]))
+  /\ LET r == T.runs[l + 1] IN
+     \A clause \in Clauses(r) :
+        PrintT(ToJson([verdict |-> "MISMATCH", tid |-> T.tid, l |-> l + 1, action |-> r.cfg.method,
+                       clause |-> clause, tags |-> Tags(r, clause), obsoutcome |-> r.outcome,
+                       fluxes |-> r.cfg.fluxes, P |-> r.cfg.P, via |-> r.cfg.via]))
   /\ l' = l + 1
-  /\ UNCHANGED <<tid, dim>>
+  /\ UNCHANGED <<tid, dim, orig>>
 =============================================================================
